@@ -20,6 +20,8 @@ import (
 	"sort"
 	"strings"
 
+	corev1 "k8s.io/api/core/v1"
+	extv1 "k8s.io/apiextensions-apiserver/pkg/apis/apiextensions/v1"
 	metav1 "k8s.io/apimachinery/pkg/apis/meta/v1"
 	"k8s.io/apimachinery/pkg/runtime"
 	"k8s.io/apimachinery/pkg/types"
@@ -51,6 +53,10 @@ type c16Parent struct {
 	UID    int       `json:"uid"`
 	Label  string    `json:"label"`  // pkg.crossplane.io/package ("" = no label)
 	Owners []c16PRef `json:"owners"` // owner references of the revision itself
+	// webhook TLS server secret: "" / "noRuntime" = ConfigurationRevision parent; otherwise a
+	// ProviderRevision whose spec.tlsServerSecretName is nil ("noName") or names a secret that is
+	// "present", "missing" or has an "empty" tls.crt
+	TLS string `json:"tls"`
 }
 
 type c16Obj struct {
@@ -60,8 +66,9 @@ type c16Obj struct {
 }
 
 type c16Des struct {
-	Key  string `json:"key"`
+	Key  string `json:"key"` // "Composition/<n>" | "XRD/<n>" | "CRD/<n>"
 	Body int    `json:"body"`
+	Conv bool   `json:"conv"` // CRD with conversion strategy Webhook (needs the CA bundle)
 }
 
 type c16Fault struct {
@@ -136,6 +143,8 @@ var c16Scheme = func() *runtime.Scheme {
 	s := runtime.NewScheme()
 	_ = xv1.AddToScheme(s)
 	_ = pkgv1.AddToScheme(s)
+	_ = extv1.AddToScheme(s)
+	_ = corev1.AddToScheme(s)
 	return s
 }()
 
@@ -201,10 +210,25 @@ const c16BodyAnn = "c16/body"
 
 // c16Build builds the typed package object for key with the given body, as the
 // package parser would return it (TypeMeta set).
-func c16Build(key string, body int) client.Object {
+func c16Build(key string, body int) client.Object { return c16BuildConv(key, body, false) }
+
+func c16BuildConv(key string, body int, conv bool) client.Object {
 	kind, name := c16SplitKey(key)
 	ann := map[string]string{c16BodyAnn: fmt.Sprint(body)}
 	switch kind {
+	case "CRD":
+		o := &extv1.CustomResourceDefinition{}
+		o.SetGroupVersionKind(extv1.SchemeGroupVersion.WithKind("CustomResourceDefinition"))
+		o.SetName(name)
+		o.SetAnnotations(ann)
+		o.Spec.Group = "example.org"
+		o.Spec.Names.Kind = fmt.Sprintf("B%d", body)
+		o.Spec.Names.Plural = fmt.Sprintf("b%ds", body)
+		o.Spec.Scope = extv1.ClusterScoped
+		if conv {
+			o.Spec.Conversion = &extv1.CustomResourceConversion{Strategy: extv1.WebhookConverter}
+		}
+		return o
 	case "XRD":
 		o := &xv1.CompositeResourceDefinition{}
 		o.SetGroupVersionKind(xv1.CompositeResourceDefinitionGroupVersionKind)
@@ -225,6 +249,9 @@ func c16Build(key string, body int) client.Object {
 }
 
 func c16KeyOf(gk, name string) string {
+	if strings.HasPrefix(gk, "CustomResourceDefinition") {
+		return "CRD/" + name
+	}
 	if strings.HasPrefix(gk, "CompositeResourceDefinition") {
 		return "XRD/" + name
 	}
@@ -240,9 +267,23 @@ func c16BodyOf(o metav1.Object) int {
 	return n
 }
 
-func c16ParentObj(p c16Parent) *pkgv1.ConfigurationRevision {
-	pr := &pkgv1.ConfigurationRevision{}
-	pr.SetGroupVersionKind(pkgv1.ConfigurationRevisionGroupVersionKind)
+const c16TLSSecret = "the-tls-server-secret"
+
+func c16ParentObj(p c16Parent) pkgv1.PackageRevision {
+	var pr pkgv1.PackageRevision
+	if p.TLS == "" || p.TLS == "noRuntime" {
+		c := &pkgv1.ConfigurationRevision{}
+		c.SetGroupVersionKind(pkgv1.ConfigurationRevisionGroupVersionKind)
+		pr = c
+	} else {
+		c := &pkgv1.ProviderRevision{}
+		c.SetGroupVersionKind(pkgv1.ProviderRevisionGroupVersionKind)
+		if p.TLS != "noName" {
+			n := c16TLSSecret
+			c.Spec.TLSServerSecretName = &n
+		}
+		pr = c
+	}
 	_, _, n := c16OwnerIdent(p.UID)
 	pr.SetName(n)
 	pr.SetUID(c16UID(p.UID))
@@ -258,13 +299,30 @@ func c16ParentObj(p c16Parent) *pkgv1.ConfigurationRevision {
 	return pr
 }
 
+// c16SetTLS puts the webhook TLS server secret into the state the scenario asks for.
+func c16SetTLS(st *Store, state string) {
+	st.Remove(corev1.SchemeGroupVersion.WithKind("Secret").GroupKind(), "crossplane-system", c16TLSSecret)
+	if state != "present" && state != "empty" {
+		return
+	}
+	s := &corev1.Secret{}
+	s.SetName(c16TLSSecret)
+	s.SetNamespace("crossplane-system")
+	if state == "present" {
+		s.Data = map[string][]byte{"tls.crt": []byte("CERT")}
+	} else {
+		s.Data = map[string][]byte{"tls.crt": {}}
+	}
+	st.Seed(s)
+}
+
 // c16Snapshot is the canonical view of the package-object part of the store.
 func c16Snapshot(st *Store) []c16Obj {
 	out := []c16Obj{}
 	for _, u := range st.All() {
 		gk := u.GroupVersionKind().GroupKind().String()
 		key := c16KeyOf(gk, u.GetName())
-		if !strings.HasPrefix(key, "Composition/") && !strings.HasPrefix(key, "XRD/") {
+		if !c16IsPkgKey(key) {
 			continue
 		}
 		o := c16Obj{Key: key, Body: c16BodyOf(u), Owners: []c16Ref{}}
